@@ -204,11 +204,65 @@ def build(wiring):
                 net.procs[r - 1]["kind"] != "ADrain" or net.procs[r - 1]["par"] in R[c] for r in R[c]):
             safe_shared.add(c)
     net.unsafe = net.multiread - safe_shared
+    net.strict_in = strict_inputs(net)
     for c in range(1, nchan + 1):
         if Wr[c] == 0 and R[c]:
             net.notes.append("UNCOVERED: channel %d is read by %s but written by no recorded stage" %
                              (c, [net.procs[r - 1]["src"] for r in R[c]]))
     return net
+
+
+PURE = {"Skip", "Shift", "Head", "First", "Last", "Dup", "Filter", "Source", "Seq"}
+
+
+def strict_inputs(net):
+    """For every Operate/Operate3 process: the operand positions (1-based) that are indicator values in their own right.
+    An operand is exempt when it is an explicit delayed copy - reached through index-shifting stages only (Skip, Shift,
+    Buffered, Head, Duplicate, field extraction) - of a raw input or of a stream another operand of the same join
+    derives from: that is how the code writes 'the previous value' and moving windows."""
+    procs = net.procs
+    writer = net.writer
+
+    def is_pure(i):
+        p = procs[i]
+        if p["kind"] in PURE:
+            return True
+        # Buffered / Pipe / Waitable / field-extracting Map copy their input
+        return p["kind"] == "Map" and (p["src"] in ("Buffered", "Pipe", "Waitable", "Field") or p["lab"] != "")
+
+    def ancestors(c, pure_only, seen=None):
+        """stages (indices) upstream of channel c"""
+        seen = set() if seen is None else seen
+        w = writer.get(c, 0)
+        if w == 0:
+            return seen
+        i = w - 1
+        if pure_only and not is_pure(i):
+            return seen
+        if i in seen:
+            return seen
+        seen.add(i)
+        for cin in procs[i]["ins"]:
+            ancestors(cin, pure_only, seen)
+        return seen
+    res = {}
+    for pi, p in enumerate(procs):
+        if p["kind"] not in ("Operate", "Operate3"):
+            continue
+        pure = [ancestors(c, True) for c in p["ins"]]
+        alla = [ancestors(c, False) for c in p["ins"]]
+        strict = []
+        for k in range(len(p["ins"])):
+            raw = any(procs[i]["kind"] in ("Source", "Seq") for i in pure[k])
+            others = set()
+            for j in range(len(p["ins"])):
+                if j != k:
+                    others |= alla[j]
+            if raw or (pure[k] & others):
+                continue
+            strict.append(k + 1)
+        res[pi + 1] = strict
+    return res
 
 
 def emit(net, lenvecs, mode, W, offs=None, module="MC", invariants=("NoPanic", "SingleReader", "Report"),
@@ -234,6 +288,7 @@ def emit(net, lenvecs, mode, W, offs=None, module="MC", invariants=("NoPanic", "
     lines.append("MCCap == " + tla_seq(net.caps))
     lines.append("MCWriter == " + tla_seq(net.writer[c] for c in range(1, nc + 1)))
     lines.append("MCReaders == " + tla_seq(tla_set(net.readers[c]) for c in range(1, nc + 1)))
+    lines.append("MCStrictIn == " + tla_seq(tla_set(net.strict_in.get(i + 1, [])) for i in range(np_)))
     lines.append("MCUnsafe == " + tla_set(net.unsafe))
     lines.append("MCMultiRead == " + tla_set(net.multiread))
     lines.append("MCLenVecs == {" + ", ".join(tla_seq(v) for v in lenvecs) + "}")
@@ -241,7 +296,7 @@ def emit(net, lenvecs, mode, W, offs=None, module="MC", invariants=("NoPanic", "
     lines.append("====")
     cfg = ["CONSTANTS", " NP = %d" % np_, " NC = %d" % nc, " Kind <- MCKind", " Ins <- MCIns", " Outs <- MCOuts",
            " Par <- MCPar", " Par2 <- MCPar2", " Lab <- MCLab", " Cap <- MCCap", " Writer <- MCWriter",
-           " Readers <- MCReaders", " Unsafe <- MCUnsafe", " MultiRead <- MCMultiRead", " LenVecs <- MCLenVecs",
+           " Readers <- MCReaders", " StrictIn <- MCStrictIn", " Unsafe <- MCUnsafe", " MultiRead <- MCMultiRead", " LenVecs <- MCLenVecs",
            ' Mode = "%s"' % mode, " W = %d" % W, " Off <- MCOff",
            " SeedChecked = %s" % ("TRUE" if seed_checked else "FALSE"),
            " OpCloseFirst = %s" % ("TRUE" if op_close_first else "FALSE"),
